@@ -10,7 +10,7 @@ import (
 	"verif/harness/chain"
 )
 
-var c07Starts = []*uint64{nil, u64p(0), u64p(1), u64p(0xffffffff), u64p(0x100000000), u64p(1 << 63), u64p(^uint64(0) - 200000)}
+var c07Starts = []*uint64{nil, u64p(0), u64p(1), u64p(0xffffffff), u64p(0x100000000), u64p(1 << 63), u64p(^uint64(0) - 200000), u64p(^uint64(0) - 2), u64p(^uint64(0))}
 
 // prodCampaign runs producer histories over several chains (starts, back-ends, late-failure configurations).
 func prodCampaign(rc *RunCtx, chains, steps int) {
